@@ -38,6 +38,7 @@ type respProg struct {
 	close    bool
 	trailers []wire.Header
 	immFlush bool
+	fails    bool // the body stream breaks off: no complete response can be written
 	desc     string
 }
 
@@ -54,6 +55,9 @@ type pieceReader struct {
 	zeroEvery bool
 	piece     int
 	polled    bool
+	// failing mode: an error once failAt bytes have been handed out (-1: never)
+	failAt int
+	given  int
 }
 
 func (r *pieceReader) Read(p []byte) (int, error) {
@@ -72,7 +76,13 @@ func (r *pieceReader) Read(p []byte) (int, error) {
 		return 0, nil
 	}
 	r.polled = false
+	if r.failAt >= 0 && r.given >= r.failAt {
+		return 0, fmt.Errorf("scripted body stream error")
+	}
 	n := len(p)
+	if r.failAt >= 0 && r.given+n > r.failAt && r.failAt > r.given {
+		n = r.failAt - r.given
+	}
 	if r.zeroEvery && r.piece < n {
 		n = r.piece
 	}
@@ -85,6 +95,7 @@ func (r *pieceReader) Read(p []byte) (int, error) {
 	}
 	copy(p, r.data[:n])
 	r.data = r.data[n:]
+	r.given += n
 	if len(r.data) == 0 && r.eofw {
 		return n, io.EOF
 	}
@@ -169,14 +180,20 @@ func genProg(tp *core.Tape, idx int, ep *core.Episode, method string) *respProg 
 	}
 	body := core.PatternBytes(byte(50+idx), size)
 	mkReader := func() io.Reader {
-		ek := tp.Choose("reofw", 4) // 0/1 as before (recorded tapes); 2: the stream also implements io.WriterTo; 3: a polling stream
-		r := &pieceReader{data: append([]byte(nil), body...), zeroes: zeroReads(ep, tp), eofw: ek == 1}
+		ek := tp.Choose("reofw", 5) // 0/1 as before (recorded tapes); 2: the stream also implements io.WriterTo; 3: a polling stream; 4: a stream that fails half way
+		r := &pieceReader{data: append([]byte(nil), body...), zeroes: zeroReads(ep, tp), eofw: ek == 1, failAt: -1}
 		for i := 0; i < 5; i++ {
 			r.sizes = append(r.sizes, 1+tp.Choose("rsz", 6000))
 		}
 		if ek == 2 {
 			ep.Probe("stream-writer-to")
 			return &writerToReader{r}
+		}
+		if ek == 4 && p.mode == 4 && len(body) > 0 && !bodiless {
+			// a stream of announced length that breaks off: the response cannot be completed, the connection has to end
+			r.failAt = tp.Choose("failat", len(body))
+			p.fails = true
+			ep.Probe("stream-fails")
 		}
 		if ek == 3 {
 			// one empty read before every piece, and well over a hundred pieces: legal (never two empty reads in a row)
@@ -406,6 +423,30 @@ func RunC04(ep *core.Episode) {
 	case core.RunViolation:
 		return
 	}
+	// a body stream that broke off: the response is cut short, nothing may follow on the connection
+	cutShort := false
+	for f, p := range progs {
+		if !p.fails || f >= ran {
+			continue
+		}
+		if ran > f+1 {
+			ep.Fail("C04.next", "response %d was cut short by its failing body stream (Content-Length announced), yet the server went on to serve request %d on the same connection", f, f+1)
+			return
+		}
+		if len(cl.Resps) > f {
+			ep.Fail("C04.framing", "response %d decodes as a complete message although its body stream broke off (announced %d bytes)", f, len(p.body))
+			return
+		}
+		if !conn.A.IsClosed() {
+			ep.Fail("C04.next", "response %d was cut short by its failing body stream but the server left the connection open", f)
+			return
+		}
+		// the responses before it are judged as usual
+		ran = f
+		cl.ParseErr = nil
+		cutShort = true
+		break
+	}
 	// how many requests were legitimately served: the server stops after the first close
 	if cl.ParseErr != nil {
 		ep.Fail("C04.decode", "response %d is not a well-formed HTTP/1.1 message: %v", len(cl.Resps), cl.ParseErr)
@@ -416,7 +457,7 @@ func RunC04(ep *core.Episode) {
 		ep.Fail("C04.next", "%d handlers ran but %d responses decoded (server wrote %dB, undecoded tail starts %q, serve err=%v)", ran, served, len(conn.Rx), wire.Trunc(string(cl.Leftover()), 300), conn.Err)
 		return
 	}
-	if l := cl.Leftover(); len(l) > 0 {
+	if l := cl.Leftover(); len(l) > 0 && !cutShort {
 		ep.Fail("C04.next", "%d stray bytes after response %d: %q", len(l), served-1, wire.Trunc(string(l), 60))
 		return
 	}
@@ -547,7 +588,7 @@ func RunC04(ep *core.Episode) {
 			ep.Fail("C04.connection", "response %d announced close but %d more responses followed", i, served-1-i)
 			return
 		}
-		if !wantClose && i == served-1 && served < n && p.mode != 7 {
+		if !wantClose && i == served-1 && served < n && p.mode != 7 && !cutShort {
 			ep.Fail("C04.next", "only %d of %d requests answered although response %d kept the connection alive (serve err=%v)", served, n, i, conn.Err)
 			return
 		}
